@@ -22,7 +22,7 @@
      chan_inv e := forall h s, h < length (e_h e) -> get_chan e h = Some s ->
                      ch_cnt s = length (ch_recv_sync s) /\
                      (if ho_rx (get_h e h) then length (ho_q (get_h e h)) = ch_cnt s
-                      else ho_q (get_h e h) = [])
+                      else ho_q (get_h e h) = [] /\ ch_cnt s = 0)
      raw_inv e  := length (e_h e) <= length (e_objects e) /\ (the Arc indices
                    carried by the block_on micro-ops in continuations and by the
                    registered wakers are >= length (e_h e)) /\ (e_bodies contains
@@ -44,8 +44,10 @@
    A  strong_count_is_live_handles (+ _quiet), final_drop_iff_last_handle,
       no_double_release, try_unwrap_iff_unique
    B  send_appends_one, send_disconnected_keeps_queue, recv_removes_front,
-      recv_never_empty_handed, recv_proceeds_queue_nonempty,
-      run_model20_only_after_receiver_drop, queue_step_shape, steps_queue_fifo
+      recv_never_empty_handed (+ _declared), recv_proceeds_queue_nonempty,
+      run_model20_only_after_receiver_drop, run_model20_only_undeclared,
+      chan_inv_queue_length, run_chan_count_is_queue_length_all,
+      queue_step_shape, steps_queue_fifo
    D  demo_run, demo_count_inv (vm_compute)
 
    Proof structure (as in SyncMono): a frame relation [keeps N e e'] (harness
@@ -96,18 +98,24 @@
        run and checks [disciplined] at every executed micro-op.  No assumption is
        needed about drops, strong_count, get_mut or about misuse that the model
        answers with RX (operation on an empty slot: nothing changes).
-   D2  The channel half needs NO side condition (step_base_inv, run_chan_inv),
-       with this truthful twist: a send to a channel whose receiver has been
-       dropped still increments the runtime count and appends a view (that is
-       loom: Sender::send calls rt send first; the leak check reports the
-       message), while the std queue is gone.  Hence the queue-length equation
-       is conditional on ho_rx; after MDropRx the std queue is [] for ever.
-   D3  recv_never_empty_handed "unreachable from init_exec" is FALSE:
-       recv_on_dropped_receiver_counterexample, [DChan],
+   D2  The channel half needs NO side condition (step_base_inv, run_chan_inv).
+       A send to a channel whose receiver has been dropped hands the message
+       back and undoes its bookkeeping (loom: Channel::undo_send, "a message
+       handed back by send() is not held by the channel"): count and views are
+       unchanged.  MDropRx clears the receiver flag only when the count is 0, so
+       after the drop the count is 0 and the std queue is [] for ever; the
+       equation length (ho_q) = ch_cnt = length (ch_recv_sync) holds always
+       (chan_inv_queue_length, run_chan_count_is_queue_length_all).
+   D3  recv_never_empty_handed "unreachable from init_exec" WAS false before the
+       undo_send fix (witness then: recv_on_dropped_receiver_counterexample);
+       it is now TRUE on declared channels (recv_never_empty_handed_declared,
+       run_model20_only_undeclared).  The program of the old witness, [DChan],
          main = [ISpawn 1; ISpawn 2; IRecv 0], t1 = [IDropRx 0], t2 = [ISend 0 5],
        first iteration: main blocks in recv on the empty channel, t1 drops the
-       receiver, t2 sends (count 1, RDisc, main woken), main's MRecvPost finds an
-       empty std queue: IterPanic (PanicModel 20).  Not expressible in safe Rust
+       receiver, t2 sends (RDisc, count back to 0, but main woken), main's
+       MRecvPost finds count 0: IterPanic PanicExpectMsg
+       (recv_on_dropped_receiver_expect_msg; before the undo_send fix: count 1,
+       empty std queue, PanicModel 20).  Not expressible in safe Rust
        (the Receiver would have to be used by two threads; in the harness it is a
        use-after-free).  Proved instead: the failure is impossible while the
        receiver is alive (recv_never_empty_handed: chan_inv e -> ho_rx = true ->
@@ -115,7 +123,9 @@
        level run_model20_only_after_receiver_drop: if a run from init_exec ends
        with PanicModel 20 then, in the final state, some channel has its
        receiver dropped (exec_micro_model20: no other micro-op produces that
-       panic).
+       panic).  Sharper, since the fix: recv_never_empty_handed_declared needs
+       only h < length (e_h e), and run_model20_only_undeclared says the failing
+       index is not a declared object at all.
    D4  strong_count logs live + drops in flight (a handle whose drop has passed
        the harness but not yet the runtime decrement still counts, as in std
        where the count is decremented inside drop);
@@ -292,13 +302,15 @@ Definition arc_inv (e : exec) : Prop :=
     arc_cnt s = live e k + pend e k.
 
 (* B: the runtime message count of a declared channel = number of per-message
-   views = length of the std queue (as long as the receiver is alive; after the
-   receiver is gone the std queue is empty and stays empty) *)
+   views = length of the std queue; once the receiver is gone (MDropRx clears the
+   flag only when the count is 0) the std queue is empty AND the count is 0, and
+   both stay so: a send to a disconnected channel hands the message back and
+   undoes its bookkeeping (Channel::undo_send) *)
 Definition chan_inv (e : exec) : Prop :=
   forall h s, h < length (e_h e) -> get_chan e h = Some s ->
     ch_cnt s = length (ch_recv_sync s) /\
     (if ho_rx (get_h e h) then length (ho_q (get_h e h)) = ch_cnt s
-     else ho_q (get_h e h) = []).
+     else ho_q (get_h e h) = [] /\ ch_cnt s = 0).
 
 (* bookkeeping: the i-th harness object sits on the i-th runtime object; the
    Arcs of block_on live beyond the harness objects *)
@@ -984,7 +996,7 @@ Definition local_arc (p : nat) (o : object) (h : hobj) : Prop :=
 Definition local_chan (o : object) (h : hobj) : Prop :=
   forall s, o = OChannel s ->
     ch_cnt s = length (ch_recv_sync s) /\
-    (if ho_rx h then length (ho_q h) = ch_cnt s else ho_q h = []).
+    (if ho_rx h then length (ho_q h) = ch_cnt s else ho_q h = [] /\ ch_cnt s = 0).
 
 Lemma get_h_nth_error e k h : nth_error (e_h e) k = Some h -> get_h e k = h.
 Proof. intros H. unfold get_h. apply nth_error_nth. exact H. Qed.
@@ -1373,21 +1385,34 @@ Proof.
 Qed.
 
 (* ---- MSendPost ---- *)
+(* receiver alive: count and views grow by one, the value is queued;
+   receiver gone: count and views are the old ones (only ch_sender_sync moved) *)
 Lemma send_post_upd e me h v s : get_chan e h = Some s ->
-  exists s', ch_cnt s' = S (ch_cnt s) /\ length (ch_recv_sync s') = S (length (ch_recv_sync s)) /\
+  exists s',
+    (if ho_rx (get_h e h)
+     then ch_cnt s' = S (ch_cnt s) /\ length (ch_recv_sync s') = S (length (ch_recv_sync s))
+     else ch_cnt s' = ch_cnt s /\ ch_recv_sync s' = ch_recv_sync s) /\
     upd_at e (res_exec (exec_micro e me (MSendPost h v))) h (fun _ => OChannel s')
       (fun ho => if ho_rx (get_h e h) then ho_set_q ho (ho_q ho ++ [v]) else ho) me (fun c => c).
 Proof.
   intros Hg. cbn [exec_micro]. rewrite Hg. cbv zeta.
-  exists (mkChan (S (ch_cnt s)) (ch_last_send s) (ch_last_recv s)
-            (sync_store (ch_sender_sync s) (caus_of e me) (rel_of e me) Release)
-            (ch_recv_sync s ++ [sync_store (ch_sender_sync s) (caus_of e me) (rel_of e me) Release])
-            (ch_last_try_recv s)).
-  split; [reflexivity|]. split; [cbn [ch_recv_sync]; rewrite app_length; cbn [length]; lia|].
   match goal with |- context [ho_rx (get_h ?E h)] =>
-    assert (Hh : get_h E h = get_h e h) by (destruct (Nat.eqb (S (ch_cnt s)) 1); reflexivity) end.
-  rewrite Hh. destruct (ho_rx (get_h e h)); cbn [res_exec];
-    destruct (Nat.eqb (S (ch_cnt s)) 1); upd_at_tac.
+    tryif constr_eq E e then fail else
+    (assert (Hh : get_h E h = get_h e h) by (destruct (Nat.eqb (S (ch_cnt s)) 1); reflexivity)) end.
+  rewrite Hh. destruct (ho_rx (get_h e h)); cbv iota.
+  - exists (mkChan (S (ch_cnt s)) (ch_last_send s) (ch_last_recv s)
+              (sync_store (ch_sender_sync s) (caus_of e me) (rel_of e me) Release)
+              (ch_recv_sync s ++ [sync_store (ch_sender_sync s) (caus_of e me) (rel_of e me) Release])
+              (ch_last_try_recv s)).
+    split; [split; [reflexivity|cbn [ch_recv_sync]; rewrite app_length; cbn [length]; lia]|].
+    cbn [res_exec]. destruct (Nat.eqb (S (ch_cnt s)) 1); upd_at_tac.
+  - exists (mkChan (ch_cnt s) (ch_last_send s) (ch_last_recv s)
+              (sync_store (ch_sender_sync s) (caus_of e me) (rel_of e me) Release)
+              (ch_recv_sync s) (ch_last_try_recv s)).
+    split; [split; reflexivity|].
+    cbn [res_exec]. destruct (Nat.eqb (S (ch_cnt s)) 1);
+      unfold upd_at; autorewrite with proj4; unfold proj4; cbn [on_o on_h on_c];
+      rewrite ?list_upd_id, list_upd_upd_const; reflexivity.
 Qed.
 
 Lemma send_post_base e me c h v :
@@ -1395,15 +1420,16 @@ Lemma send_post_base e me c h v :
   base_inv (res_exec (exec_micro e me (MSendPost h v))).
 Proof.
   intros Hb Hc. destruct (get_chan e h) as [s|] eqn:Hg.
-  - destruct (send_post_upd e me h v s Hg) as (s' & H1 & H2 & Hu).
+  - destruct (send_post_upd e me h v s Hg) as (s' & H1 & Hu).
     eapply base_inv_update; [exact Hb|exact Hu|exact Hc| |auto|].
     + intros ho. destruct (ho_rx (get_h e h)); reflexivity.
     + intros o ho Ho Hh Hl s0 Hs0. injection Hs0 as <-.
       apply get_chan_nth in Hg. rewrite Hg in Ho. injection Ho as <-.
       destruct (Hl s eq_refl) as [L1 L2]. rewrite (get_h_nth_error e h ho Hh) in *.
-      split; [lia|]. destruct (ho_rx ho) eqn:Hrx.
-      * cbn [ho_set_q ho_rx ho_q]. rewrite Hrx, app_length. cbn [length]. lia.
-      * rewrite Hrx. exact L2.
+      destruct (ho_rx ho) eqn:Hrx.
+      * destruct H1 as [H1 H2]. split; [lia|].
+        cbn [ho_set_q ho_rx ho_q]. rewrite Hrx, app_length. cbn [length]. lia.
+      * destruct H1 as [H1 H2]. rewrite Hrx. rewrite H1, H2. split; [exact L1|exact L2].
   - cbn [exec_micro]. rewrite Hg. exact Hb.
 Qed.
 
@@ -1412,7 +1438,7 @@ Lemma send_post_arc e me c h v :
   arc_inv (res_exec (exec_micro e me (MSendPost h v))).
 Proof.
   intros Ha Hc. destruct (get_chan e h) as [s|] eqn:Hg.
-  - destruct (send_post_upd e me h v s Hg) as (s' & H1 & H2 & Hu).
+  - destruct (send_post_upd e me h v s Hg) as (s' & H1 & Hu).
     eapply arc_inv_update; [exact Ha|exact Hu|exact Hc|auto|].
     intros o ho p _ _ _ s0 Hs0. discriminate Hs0.
   - cbn [exec_micro]. rewrite Hg. exact Ha.
@@ -1458,7 +1484,7 @@ Proof.
     rewrite H2 in L1. cbn [length] in L1. split; [lia|].
     cbn [ho_set_q ho_rx ho_q]. destruct (ho_rx ho).
     + rewrite Hq in L2. cbn [length] in L2. lia.
-    + rewrite Hq in L2. discriminate L2.
+    + destruct L2 as [L2 _]. rewrite Hq in L2. discriminate L2.
   - eapply base_inv_update; [exact Hb|exact Hu|exact Hc|auto|auto|].
     intros o ho Ho Hh Hl s0 Hs0. injection Hs0 as <-.
     apply get_chan_nth in Hg. rewrite Hg in Ho. injection Ho as <-.
@@ -1466,7 +1492,7 @@ Proof.
     rewrite H2 in L1. cbn [length] in L1. split; [lia|].
     destruct (ho_rx ho).
     + rewrite Hq in L2. cbn [length] in L2. lia.
-    + exact L2.
+    + destruct L2 as [_ L2]. lia.
 Qed.
 
 Lemma recv_post_arc e me c h lg :
@@ -1500,10 +1526,13 @@ Lemma drop_rx_base e me c h :
   base_inv e -> nth_error (conts e) me = Some c ->
   base_inv (res_exec (exec_micro e me (MDropRx h))).
 Proof.
-  intros Hb Hc. destruct (drop_rx_cases e me h) as [Hk|[_ Hu]].
+  intros Hb Hc. destruct (drop_rx_cases e me h) as [Hk|[(s0 & Hg0 & Hz & _) Hu]].
   - eapply keeps_base_inv; eassumption.
   - eapply base_inv_update; [exact Hb|exact Hu|exact Hc|auto|auto|].
-    intros o ho _ _ Hl s Hs. destruct (Hl s Hs) as [L1 _]. split; [exact L1|]. reflexivity.
+    intros o ho Ho _ Hl s Hs. destruct (Hl s Hs) as [L1 _]. split; [exact L1|].
+    cbn [ho_set_q ho_set_rx ho_rx ho_q]. split; [reflexivity|].
+    apply get_chan_nth in Hg0. rewrite Hg0 in Ho. injection Ho as Ho. rewrite <- Ho in Hs.
+    injection Hs as <-. exact Hz.
 Qed.
 
 Lemma drop_rx_arc e me c h :
@@ -1791,9 +1820,31 @@ Theorem run_chan_count_is_queue_length fuel p pa h s :
   ch_cnt s = length (ch_recv_sync s) /\
   (if ho_rx (get_h (fst (run fuel (init_exec p pa))) h)
    then length (ho_q (get_h (fst (run fuel (init_exec p pa))) h)) = ch_cnt s
-   else ho_q (get_h (fst (run fuel (init_exec p pa))) h) = []).
+   else ho_q (get_h (fst (run fuel (init_exec p pa))) h) = [] /\ ch_cnt s = 0).
 Proof.
   intros Hh Hg. apply (run_chan_inv fuel p pa); [rewrite run_h_length; exact Hh|exact Hg].
+Qed.
+
+(* without the case distinction: the three counters always agree, and a channel
+   whose receiver is gone holds no message *)
+Lemma chan_inv_queue_length e h s :
+  chan_inv e -> h < length (e_h e) -> get_chan e h = Some s ->
+  ch_cnt s = length (ch_recv_sync s) /\ length (ho_q (get_h e h)) = ch_cnt s /\
+  (ho_rx (get_h e h) = false -> ch_cnt s = 0).
+Proof.
+  intros Hi Hh Hg. destruct (Hi h s Hh Hg) as [L1 L2]. split; [exact L1|].
+  destruct (ho_rx (get_h e h)).
+  - split; [exact L2|]. intros Hf. discriminate Hf.
+  - destruct L2 as [Hq Hz]. rewrite Hq, Hz. split; [reflexivity|]. intros _. reflexivity.
+Qed.
+
+Theorem run_chan_count_is_queue_length_all fuel p pa h s :
+  h < length (p_decls p) -> get_chan (fst (run fuel (init_exec p pa))) h = Some s ->
+  ch_cnt s = length (ch_recv_sync s) /\
+  length (ho_q (get_h (fst (run fuel (init_exec p pa))) h)) = ch_cnt s /\
+  (ho_rx (get_h (fst (run fuel (init_exec p pa))) h) = false -> ch_cnt s = 0).
+Proof.
+  intros Hh Hg. apply chan_inv_queue_length; [apply run_chan_inv|rewrite run_h_length; exact Hh|exact Hg].
 Qed.
 
 Lemma run_dsteps : forall fuel e e' r, run fuel e = (e', r) -> run_disc fuel e = true ->
@@ -1964,22 +2015,30 @@ Theorem send_appends_one e me h v e' :
 Proof.
   intros H Hrx. destruct (get_chan e h) as [s|] eqn:Hg;
     [|cbn [exec_micro] in H; rewrite Hg in H; discriminate H].
-  destruct (send_post_upd e me h v s Hg) as (s' & H1 & _ & Hu). rewrite H in Hu. cbn [res_exec] in Hu.
+  destruct (send_post_upd e me h v s Hg) as (s' & H1 & Hu). rewrite H in Hu. cbn [res_exec] in Hu.
+  rewrite Hrx in H1. destruct H1 as [H1 _].
   rewrite (upd_at_get_h_same _ _ _ _ _ _ _ Hu (rx_in_range e h Hrx)), Hrx. split; [reflexivity|].
   exists s, s'. split; [reflexivity|]. split; [|exact H1].
   eapply upd_at_get_chan_same; [exact Hu|]. apply get_chan_nth in Hg. apply nth_error_Some. congruence.
 Qed.
 
-(* a send to a channel whose receiver is gone leaves the (empty) queue alone *)
+(* a send to a channel whose receiver is gone leaves the (empty) queue alone,
+   and the runtime count and the per-message views as well: the message is
+   handed back to the sender, the channel does not hold it *)
 Theorem send_disconnected_keeps_queue e me h v e' :
   exec_micro e me (MSendPost h v) = MOk e' -> ho_rx (get_h e h) = false ->
-  ho_q (get_h e' h) = ho_q (get_h e h).
+  ho_q (get_h e' h) = ho_q (get_h e h) /\
+  exists s s', get_chan e h = Some s /\ get_chan e' h = Some s' /\
+               ch_cnt s' = ch_cnt s /\ ch_recv_sync s' = ch_recv_sync s.
 Proof.
   intros H Hrx. destruct (get_chan e h) as [s|] eqn:Hg;
     [|cbn [exec_micro] in H; rewrite Hg in H; discriminate H].
-  destruct (send_post_upd e me h v s Hg) as (s' & _ & _ & Hu). rewrite H in Hu. cbn [res_exec] in Hu.
-  destruct (upd_at_get_h_cases _ _ _ _ _ _ _ h Hu) as [->|[_ ->]]; [reflexivity|].
-  rewrite Hrx. reflexivity.
+  destruct (send_post_upd e me h v s Hg) as (s' & H1 & Hu). rewrite H in Hu. cbn [res_exec] in Hu.
+  rewrite Hrx in H1. destruct H1 as [H1 H2]. split.
+  - destruct (upd_at_get_h_cases _ _ _ _ _ _ _ h Hu) as [->|[_ ->]]; [reflexivity|].
+    rewrite Hrx. reflexivity.
+  - exists s, s'. split; [reflexivity|]. split; [|split; [exact H1|exact H2]].
+    eapply upd_at_get_chan_same; [exact Hu|]. apply get_chan_nth in Hg. apply nth_error_Some. congruence.
 Qed.
 
 (* the internal failure of MRecvPost ("the runtime let the receive proceed but
@@ -1991,6 +2050,23 @@ Proof.
   intros Hch Hrx e2 H. pose proof (rx_in_range e h Hrx) as Hlt.
   cbn [exec_micro] in H. destruct (get_chan e h) as [s|] eqn:Hg; [|discriminate H].
   destruct (Hch h s Hlt Hg) as [_ Hq]. rewrite Hrx in Hq.
+  destruct (ch_cnt s) as [|cnt]; [discriminate H|].
+  destruct (ch_recv_sync s) as [|sy rest]; [discriminate H|]. cbv zeta in H.
+  match type of H with context [ho_q (get_h ?E h)] =>
+    assert (Hh : get_h E h = get_h e h) by (destruct (Nat.eqb cnt 0); reflexivity) end.
+  rewrite Hh in H. destruct (ho_q (get_h e h)); [discriminate Hq|discriminate H].
+Qed.
+
+(* since the undo_send fix the three counters agree also after the receiver is
+   gone, so the failure is impossible on every DECLARED channel, receiver alive
+   or not *)
+Theorem recv_never_empty_handed_declared e me h lg :
+  chan_inv e -> h < length (e_h e) ->
+  forall e2, exec_micro e me (MRecvPost h lg) <> MFail e2 (PanicModel 20).
+Proof.
+  intros Hch Hlt e2 H.
+  cbn [exec_micro] in H. destruct (get_chan e h) as [s|] eqn:Hg; [|discriminate H].
+  destruct (chan_inv_queue_length e h s Hch Hlt Hg) as (_ & Hq & _).
   destruct (ch_cnt s) as [|cnt]; [discriminate H|].
   destruct (ch_recv_sync s) as [|sy rest]; [discriminate H|]. cbv zeta in H.
   match type of H with context [ho_q (get_h ?E h)] =>
@@ -2084,7 +2160,7 @@ Proof.
     + (* MSendPost *)
       destruct (get_chan e1 h0) as [s|] eqn:Hgc;
         [|cbn [exec_micro]; rewrite Hgc; left; reflexivity].
-      destruct (send_post_upd e1 me h0 v s Hgc) as (s' & _ & _ & Hu).
+      destruct (send_post_upd e1 me h0 v s Hgc) as (s' & _ & Hu).
       destruct (upd_at_get_h_cases _ _ _ _ _ _ _ h Hu) as [->|[-> ->]]; [left; reflexivity|].
       destruct (ho_rx (get_h e1 h0)); [right; left; exists v; reflexivity|left; reflexivity].
     + (* MRecvPost *)
@@ -2244,8 +2320,45 @@ Proof.
   exfalso. eapply recv_never_empty_handed; [apply Hb1|exact Hrx|exact Hx].
 Qed.
 
+(* since the undo_send fix: the failure can only come from a receive on an index
+   that is not a declared object (no harness object; the model has no such
+   channel: objects appended at run time are Notify / Arc / cell) *)
+Theorem run_model20_only_undeclared_from : forall fuel e e',
+  base_inv e -> run fuel e = (e', IterPanic (PanicModel 20)) ->
+  exists h s, get_chan e' h = Some s /\ length (e_h e') <= h.
+Proof.
+  induction fuel as [|fuel IH]; intros e e' Hi H; cbn [run] in H; [discriminate H|].
+  destruct (e_active e) as [me|]; [|discriminate H].
+  destruct (nth_error (e_threads e) me) as [t|] eqn:Ht; [|discriminate H].
+  destruct (t_cont t) as [|m rest] eqn:Hc; [discriminate H|].
+  pose proof (step_base_inv e me t m rest Hi Ht Hc) as Hb.
+  pose proof (pop_base_inv e me t m rest Hi Ht Hc) as Hb1. unfold pop in *.
+  destruct (exec_micro _ me m) as [e2|e2 pn] eqn:Hx; cbn [res_exec] in Hb; [exact (IH e2 e' Hb H)|].
+  injection H as <- ->. destruct (exec_micro_model20 _ _ _ _ Hx) as (h & lg & ->).
+  destruct (recv_post_fail20 _ _ _ _ _ Hx) as (Hh & s' & Hs'). exists h, s'. split; [exact Hs'|].
+  match type of Hx with exec_micro ?E _ _ = _ =>
+    pose proof (exec_micro_mono E me (MRecvPost h lg)) as Hm;
+    destruct (Nat.lt_ge_cases h (length (e_h E))) as [Hlt|Hge] end.
+  - exfalso. eapply recv_never_empty_handed_declared; [apply Hb1|exact Hlt|exact Hx].
+  - rewrite Hx in Hm. cbn [res_exec] in Hm.
+    destruct Hm as (_ & _ & [Hl _] & _). rewrite Hl. exact Hge.
+Qed.
+
+Theorem run_model20_only_undeclared : forall fuel p pa e',
+  run fuel (init_exec p pa) = (e', IterPanic (PanicModel 20)) ->
+  exists h s, get_chan e' h = Some s /\ length (p_decls p) <= h.
+Proof.
+  intros fuel p pa e' H.
+  destruct (run_model20_only_undeclared_from fuel _ e' (proj2 (init_count_inv p pa)) H)
+    as (h & s & Hg & Hl).
+  exists h, s. split; [exact Hg|].
+  pose proof (run_h_length fuel p pa) as Hlen. rewrite H in Hlen. cbn [fst] in Hlen.
+  rewrite <- Hlen. exact Hl.
+Qed.
+
 (* run-level form of recv_never_empty_handed: from init_exec the failure is
-   reachable only in a state where the receiver of that channel has been dropped *)
+   reachable only in a state where the receiver of that channel has been dropped
+   (kept for its name; run_model20_only_undeclared above is the sharp form) *)
 Theorem run_model20_only_after_receiver_drop : forall fuel p pa e',
   run fuel (init_exec p pa) = (e', IterPanic (PanicModel 20)) ->
   exists h s, get_chan e' h = Some s /\ ho_rx (get_h e' h) = false.
@@ -2341,20 +2454,23 @@ Lemma try_unwrap_race_counterexample :
     [LOp 0 0 RUnit; LOp 0 1 RUnit; LOp 1 0 RUnit; LDrop 0; LOp 0 2 (RBool true); LOp 0 3 RUnit].
 Proof. vm_compute. repeat split; reflexivity. Qed.
 
-(* ---- counterexample 3 (B, recv_never_empty_handed "from init_exec"): the
-   internal failure PanicModel 20 IS reachable when the receiver is dropped by
-   one thread while another thread is blocked in recv on it (impossible in safe
-   Rust: Receiver is neither Sync nor Clone).  main blocks in recv on the empty
-   channel; thread 1 drops the receiver (std queue gone); thread 2 sends: the
-   runtime counts the message and wakes main, the std send fails (RDisc);
-   main's MRecvPost finds count 1 and an empty std queue. ---- *)
+(* ---- witness 3 (B): the receiver is dropped by one thread while another
+   thread is blocked in recv on it (impossible in safe Rust: Receiver is
+   neither Sync nor Clone).  main blocks in recv on the empty channel; thread 1
+   drops the receiver (std queue gone); thread 2 sends: the std send fails
+   (RDisc) and the bookkeeping is undone (count back to 0), but main has been
+   woken; main's MRecvPost finds count 0: PanicExpectMsg ("expected a message").
+   BEFORE the undo_send fix the count stayed 1 and this run ended with the
+   internal failure PanicModel 20 (count 1, empty std queue); that failure is
+   now unreachable on declared channels (recv_never_empty_handed_declared). ---- *)
 Definition p_rx_race : prog := mkProg cfgD [DChan]
   [[ISpawn 1; ISpawn 2; IRecv 0]; [IDropRx 0]; [ISend 0 5]].
 
-Lemma recv_on_dropped_receiver_counterexample :
+Lemma recv_on_dropped_receiver_expect_msg :
   let r := run 1000 (init_exec p_rx_race (initial_path cfgD)) in
-  snd r = IterPanic (PanicModel 20) /\
+  snd r = IterPanic PanicExpectMsg /\
   ho_rx (get_h (fst r) 0) = false /\
+  summary (fst r) 0 0 = (None, 0, 0, Some (0, 0), []) /\
   rev (e_log (fst r)) = [LOp 0 0 RUnit; LOp 0 1 RUnit; LOp 1 0 RUnit; LOp 2 0 RDisc].
 Proof. vm_compute. repeat split; reflexivity. Qed.
 
@@ -2392,4 +2508,7 @@ Print Assumptions demo_run.
 Print Assumptions demo_count_inv.
 Print Assumptions clone_into_live_slot_breaks_arc_inv.
 Print Assumptions try_unwrap_race_counterexample.
-Print Assumptions recv_on_dropped_receiver_counterexample.
+Print Assumptions recv_on_dropped_receiver_expect_msg.
+Print Assumptions recv_never_empty_handed_declared.
+Print Assumptions run_model20_only_undeclared.
+Print Assumptions run_chan_count_is_queue_length_all.
